@@ -155,7 +155,9 @@ class BufferedReader:
 
         self._buffer = self._perform_read(self._chunk_size)
         self._buffer_len = len(self._buffer)
-        self._buffer_pos = read_size
+        # NOTE: The refill may come back short (end of stream); the position
+        #   must never point past the end of the buffer.
+        self._buffer_pos = min(read_size, self._buffer_len)
         return result + self._buffer[:read_size]
 
     def read_until(
